@@ -36,6 +36,9 @@ def batch_call(f: ca.Function, cols, chunk: int = 1024, threads: int = 1):
                 a = a.reshape(rr, chunk, cc).transpose(2, 0, 1).reshape(rr * cc, chunk)
             outs[j][:, s:s + n] = a[:, :n]
     probe_columns(f, cols, outs)
+    if IFACE and _named_budget.get(id(f), 0) < 3:
+        for k in sorted({0, N // 2, N - 1}):
+            named_probe(f, [c[:, k] for c in cols], [o[:, k] for o in outs])
     return outs
 
 
@@ -145,6 +148,32 @@ def eager_probe(f, args, outs, tol=1e-9):
             EAGER.append({"label": label, "out": j, "args": [np.asarray(a, float).tolist() for a in args],
                           "numeric_path": g.tolist(), "symbolic_path": w.tolist()})
             return
+    # ... and once more, in the same process, at arguments that differ from the previous ones only in the 8th significant
+    # digit (zeros stay zeros): a result memoised under a key that is too coarse (printed parameters, rounded magnitudes)
+    # is returned stale here, while the symbolic function evaluated at the new numbers gives the new value
+    pert = [np.asarray(a, float) * (1.0 + 2.5e-8) for a in args]
+    try:
+        r = ent[2](*[ca.DM(p_.reshape(ent[2].size_in(i), order="F")) for i, p_ in enumerate(pert)])
+        r = r if isinstance(r, (list, tuple)) else [r]
+        sym2 = [np.array(x).flatten(order="F") for x in r]
+    except Exception:       # noqa
+        return
+    if not all(np.all(np.isfinite(o)) for o in sym2):
+        return
+    got2 = eager_eval(builder, pert)
+    if got2 is None or got2 == "raised" or len(got2) != len(sym2):
+        return
+    STATS["probes_perturbed"] = STATS.get("probes_perturbed", 0) + 1
+    for j, (g, w) in enumerate(zip(got2, sym2)):
+        if g.shape != w.shape:
+            return
+        with np.errstate(invalid="ignore"):
+            bad = ~(np.abs(g - w) <= tol * max(1.0, float(np.max(np.abs(w))) if w.size else 1.0))
+        if np.any(bad):
+            EAGER.append({"label": label, "out": j, "args": [p_.tolist() for p_ in pert], "previous_args": [np.asarray(a, float).tolist() for a in args],
+                          "numeric_path": g.tolist(), "symbolic_path": w.tolist(),
+                          "note": "second evaluation in the same process at arguments differing in the 8th digit"})
+            return
 
 
 def probe_columns(f, cols, outs):
@@ -182,3 +211,63 @@ def direct_probe(f, args, outs):
     elif _budget.get(id(f), 0) >= 4:
         return
     eager_probe(f, a, outs)
+
+
+# --------------------------------------------------------------------------------------
+# call by NAME
+# --------------------------------------------------------------------------------------
+# The exported functions document their arguments by name (x0, a_b, omega_b, ...).  harness/iface_names.json pins the
+# names of the verified tree (tools/gen_iface.py).  A few evaluations per function are repeated BY NAME and must
+# equal the call by position: a name list that no longer matches the symbols routes a keyword caller's specific
+# force into the angular-rate slot while every positional call stays exact.
+import json as _json, os as _os
+try:
+    IFACE = _json.load(open(_os.path.join(_os.path.dirname(__file__), "iface_names.json")))
+except Exception:       # noqa
+    IFACE = {}
+NAMED = []          # disagreements (drained by Run.finish)
+NAMED_DRIFT = []    # renamed arguments (information)
+_named_budget = {}
+
+
+def _iface_of(f):
+    nm = f.name()
+    cands = [v for k, v in IFACE.items() if k == nm or k.endswith(":" + nm)]
+    cands = [v for v in cands if len(v["in"]) == f.n_in() and len(v["out"]) == f.n_out()]
+    have = [f.name_in(i) for i in range(f.n_in())]
+    exact = [v for v in cands if set(v["in"]) == set(have)]
+    if len(exact) == 1:
+        return exact[0]
+    if cands and not exact and id(f) not in _named_budget:
+        _named_budget[id(f)] = 99
+        NAMED_DRIFT.append((nm, have, cands[0]["in"]))
+    return None
+
+
+def named_probe(f, args, outs, tol=1e-9):
+    """args: list of arrays (one evaluation, positional order); outs: positional results"""
+    if _named_budget.get(id(f), 0) >= 3:
+        return
+    ent = _iface_of(f)
+    if ent is None:
+        return
+    _named_budget[id(f)] = _named_budget.get(id(f), 0) + 1
+    try:
+        kw = {ent["in"][i]: ca.DM(np.asarray(a, float).reshape(f.size_in(i), order="F")) for i, a in enumerate(args)}
+        r = f.call(kw)
+        got = [np.array(r[n]).flatten(order="F") for n in ent["out"]]
+    except Exception:       # noqa: output names changed etc. -- not decided here
+        return
+    STATS["named_calls"] = STATS.get("named_calls", 0) + 1
+    for j, (g, w) in enumerate(zip(got, outs)):
+        w = np.asarray(w, float).flatten(order="F")
+        if g.shape != w.shape:
+            return
+        same_nan = np.array_equal(np.isnan(g), np.isnan(w))
+        with np.errstate(invalid="ignore"):
+            fin = np.isfinite(w)
+            bad = (not same_nan) or np.any(np.abs(g[fin] - w[fin]) > tol * max(1.0, float(np.max(np.abs(w[fin]))) if np.any(fin) else 1.0))
+        if bad:
+            NAMED.append({"function": f.name(), "names": ent["in"], "names_now": [f.name_in(i) for i in range(f.n_in())],
+                          "args": [np.asarray(a, float).flatten().tolist() for a in args], "by_name": g.tolist(), "by_position": w.tolist()})
+            return
